@@ -9,9 +9,15 @@ and compared with its first snapshot and with `FmtStr(*f.chunks)`.  Observation 
 `f.s`, `f.width`, `chunk.color_str`) are ordinary steps placed at random positions, so caches are filled
 before and after aliasing happens.
 
-Tie: the same program goes to the Lean heap model (one request line); compared per step: the result, and for
-every pool value its object identity, the identity of its run list and of each run object (renumbered by first
-appearance on both sides), which memo fields are filled, the runs, the terminal string and the length.
+Tie: the same program goes to the Lean heap model (one request line).  Two levels (notes/AGENT_GUIDE.md):
+  C13/programs (property level, programs inside the quantifier): per step the result (a terminal string by what it
+    DISPLAYS, a guard by the fact that it raised) and for every pool value its per-character formatting (hence text),
+    length, width or its exception kind, and the display of its terminal string - what the frame/cache theorems speak about;
+  C13/programs-representation (representation level, all programs incl. slice steps): additionally object identity of
+    FmtStr / run list / run / attribute-dict objects (renumbered by first appearance), run layout, which memo slots are
+    filled, exact bytes of str(), guard exception kinds, the truth value of ==.
+Private attributes of the implementation (`_unicode/_len/_s/_width`, `color_str` in a run's __dict__) are read only when
+they exist; the verdict rests on the public accessors (observation steps compared with a fresh rebuild, final sweep).
 """
 import itertools
 import re
@@ -24,6 +30,7 @@ import lib
 import wire
 from props.common import PALETTE
 from props import widthenv
+import sgrterm
 from extract_more_heap import dict_mutators
 
 PROP = "C13"
@@ -116,16 +123,37 @@ def view_of_key(key):
     return v
 
 
+MISSING = object()
+SLOTS = ("_unicode", "_len", "_s", "_width")
+MISSING_SLOTS = set()
+
+
+def slot(f, name):
+    """a private memo slot of the implementation, read only when it exists (it sharpens the check); MISSING when the
+    implementation has no such attribute (renamed / re-represented): then only the public accessors judge"""
+    try:
+        d = vars(f)
+    except TypeError:
+        MISSING_SLOTS.add(name)
+        return MISSING
+    if name not in d:
+        MISSING_SLOTS.add(name)
+        return MISSING
+    return d[name]
+
+
 def oracle_view(v):
     return (v["s"], v["len"], v["width"], v["str"], v["repr"], v["cells"])
 
 
 def entry(f, key, v):
     cs = f.chunks
-    memo = "".join("0" if x is None else "1" for x in (f._unicode, f._len, f._s, f._width))
-    cmemo = "".join("1" if "color_str" in c.__dict__ else "0" for c in cs)
-    return "%d:%d:%s:%s:%s:%s!%s!%s!%s" % (id(f), id(cs), ".".join(str(id(c)) for c in cs), memo, cmemo,
-                                           ".".join(str(id(c.atts)) for c in cs), v["enc"], v["enc_render"], v["len"])
+    memo = "".join("?" if x is MISSING else "0" if x is None else "1" for x in (slot(f, n) for n in SLOTS))
+    cmemo = "".join("1" if "color_str" in getattr(c, "__dict__", {}) else "0" for c in cs)
+    w = v["width"]
+    return "%d:%d:%s:%s:%s:%s!%s!%s!%s!%s" % (id(f), id(cs), ".".join(str(id(c)) for c in cs), memo, cmemo,
+                                              ".".join(str(id(c.atts)) for c in cs), v["enc"], v["enc_render"], v["len"],
+                                              w if isinstance(w, str) else "w%d" % w)
 
 
 # ------------------------------------------------------------------------------------------------------------
@@ -194,9 +222,14 @@ PER_RUN = {"str": "__str__", "len": "__len__", "s": "s", "width": "width"}
 
 def interrupted(fn, which, k):
     """run fn() while the k-th call of the per-run method the observation uses (Chunk.__str__ / __len__ / .s / .width)
-    raises _Interrupt instead of running. -> (fired, result of fn when it was not interrupted)"""
+    raises _Interrupt instead of running. -> (fired, result of fn when it was not interrupted).
+    Works for a plain method, a property and any other descriptor (cached_property); when the class has no such
+    attribute the observation simply runs uninterrupted."""
     name = PER_RUN[which]
-    orig = Chunk.__dict__[name]
+    orig = Chunk.__dict__.get(name, MISSING)
+    if orig is MISSING:
+        MISSING_SLOTS.add("Chunk." + name)
+        return False, fn()
     count = [0]
 
     def hit():
@@ -206,10 +239,12 @@ def interrupted(fn, which, k):
 
     if isinstance(orig, property):
         patched = property(lambda self: (hit(), orig.fget(self))[1])
-    else:
+    elif callable(orig):
         def patched(self):
             hit()
             return orig(self)
+    else:
+        patched = property(lambda self: (hit(), orig.__get__(self, type(self)))[1])
     setattr(Chunk, name, patched)
     try:
         return False, fn()
@@ -217,16 +252,6 @@ def interrupted(fn, which, k):
         return True, None
     finally:
         setattr(Chunk, name, orig)
-
-
-def will_fire(f, which, k):
-    """does the k-th per-run call happen? (memo unset, enough runs, no earlier ValueError of Chunk.width)"""
-    memo = {"str": f._unicode, "len": f._len, "s": f._s, "width": f._width}[which]
-    if memo is not None or not 1 <= k <= len(f.chunks):
-        return False
-    if which == "width":
-        return not any(len(c.s) > 0 and wcswidth(c.s) < 0 for c in f.chunks[:k - 1])
-    return True
 
 
 def open_gen(f, cols):
@@ -289,10 +314,17 @@ def exec_step(d, pool, gens=None):
         fn = {"str": lambda: ("text", str(f)), "len": lambda: ("int", len(f)), "s": lambda: ("text", f.s),
               "width": lambda: ("int", f.width)}[which]
 
+        toks = [which, str(a)]
+
         def run():
+            # whether the k-th per-run call happens (memo unset, enough runs, no earlier ValueError) is OBSERVED, not
+            # predicted from private slots: the request token is amended in place once the outcome is known
             fired, r = interrupted(fn, which, k)
-            return ("opaque", None) if fired else r
-        return (["obsint", which, str(a), str(k)] if will_fire(f, which, k) else [which, str(a)]), run
+            if fired:
+                toks[:] = ["obsint", which, str(a), str(k)]
+                return ("opaque", None)
+            return r
+        return toks, run
     if op == "wsplit_open":                # oracle-only: the generator stays open across later steps
         def run():
             gens.append(open_gen(f, d["cols"]))
@@ -419,7 +451,8 @@ def run_program(case, collect=None):
             collect.append(toks)
         before_ids = {id(p) for p in pool}
         before_chunks = {id(c) for p in pool for c in p.chunks}
-        obs_key = key_of(pool[d["a"]]) if d["op"] in OBS + ("colorstr",) else None
+        obs_op = d["which"] if d["op"] == "obsint" else d["op"]
+        obs_key = key_of(pool[d["a"]]) if obs_op in OBS + ("colorstr",) else None
         try:
             out = thunk()
             kind, val = out[0], out[1]
@@ -432,7 +465,8 @@ def run_program(case, collect=None):
                     pool.append(r)
                     first.append(oracle_view(view_of_key(out[2][j])) if len(out) > 2 else None)
             elif kind == "text":
-                res = "t" + wire.enc_text(val)
+                # terminal strings are tagged T: compared by what they display at property level, by bytes below it
+                res = ("T" if obs_op in ("str", "colorstr") else "t") + wire.enc_text(val)
             elif kind == "int":
                 res = "i%d" % val
             elif kind == "bool":
@@ -451,7 +485,11 @@ def run_program(case, collect=None):
                     stop = True
         except Exception as e:  # noqa: BLE001
             res = wire.exc_kind(e)
+            if d["op"] in ("setitem", "attsmut"):
+                res = "G:raised:" + res[2:]
             kind, val = "raised", None
+        if obs_key is not None:
+            memo_filled = True
         for g in gens:
             for w in g["errors"]:
                 findings.append(("step %d: %s" % (i, w), d))
@@ -459,12 +497,12 @@ def run_program(case, collect=None):
         # observation results must equal the freshly computed view
         if obs_key is not None and kind in ("text", "int"):
             v = view_of_key(obs_key)
-            want = {"str": v["str"], "len": v["len"], "s": v["s"], "width": v["width"]}.get(d["op"])
-            if d["op"] == "colorstr":
+            want = {"str": v["str"], "len": v["len"], "s": v["s"], "width": v["width"]}.get(obs_op)
+            if obs_op == "colorstr":
                 want = fresh_color_str(*obs_key[d["k"]])
             if val != want:
-                findings.append(("step %d: %s returned %r, freshly computed %r" % (i, d["op"], val, want), d))
-        if obs_key is not None and kind == "raised" and d["op"] == "width" and view_of_key(obs_key)["width"] != "E:ValueError":
+                findings.append(("step %d: %s returned %r, freshly computed %r" % (i, obs_op, val, want), d))
+        if obs_key is not None and kind == "raised" and obs_op == "width" and view_of_key(obs_key)["width"] != "E:ValueError":
             findings.append(("step %d: width raised but a fresh copy has width %r" % (i, view_of_key(obs_key)["width"]), d))
         # snapshots of EVERY pool value, memo fields untouched
         ents = []
@@ -475,14 +513,16 @@ def run_program(case, collect=None):
                 first[k] = oracle_view(v)
             elif oracle_view(v) != first[k]:
                 findings.append(("step %d (%s): value of pool[%d] changed: was %r now %r" % (i, d["op"], k, first[k], oracle_view(v)), d))
-            for nm, memo, fresh in (("_unicode", p._unicode, v["str"]), ("_len", p._len, v["len"]), ("_s", p._s, v["s"]),
-                                    ("_width", p._width, v["width"])):
-                if memo is not None:
+            # private memo slots are read only where they exist (slot()); the public accessors judge in any case
+            # (observation steps above, final sweep below)
+            for nm, fresh in (("_unicode", v["str"]), ("_len", v["len"]), ("_s", v["s"]), ("_width", v["width"])):
+                memo = slot(p, nm)
+                if memo is not None and memo is not MISSING:
                     memo_filled = True
                     if memo != fresh:
                         findings.append(("step %d (%s): memo %s of pool[%d] is %r, fresh value %r" % (i, d["op"], nm, k, memo, fresh), d))
             for c, ck in zip(p.chunks, key):
-                m = c.__dict__.get("color_str")
+                m = getattr(c, "__dict__", {}).get("color_str")
                 if m is not None:
                     memo_filled = True
                     if m != fresh_color_str(*ck):
@@ -524,15 +564,71 @@ def canon(reply):
         es = []
         for e in (ents.split(" ") if ents else []):
             try:
-                ids, enc, rend, ln = e.split("!")
+                ids, enc, rend, ln, w = e.split("!")
                 fid, lid, cids, memo, cmemo, aids = ids.split(":")
             except ValueError:
                 es.append(e)
                 continue
             es.append((num(fm, fid), num(lm, lid), tuple(num(cm, c) for c in cids.split(".")) if cids else (), memo, cmemo,
-                       tuple(num(am, c) for c in aids.split(".")) if aids else (), enc, rend, ln))
+                       tuple(num(am, c) for c in aids.split(".")) if aids else (), enc, rend, ln, w))
         out.append((head.strip(), tuple(es)))
     return tuple(out)
+
+
+_disp_cache = {}
+
+
+def disp(enc):
+    """what a terminal shows for a terminal string given in wire form: per-character (char, effective formatting),
+    the final graphic state, non-SGR controls, parser mode (harness/sgrterm.py, the mirror of Spec/Sgr.lean)"""
+    r = _disp_cache.get(enc)
+    if r is None:
+        cells, g, ctls, mode = sgrterm.display(wire.dec_text(enc))
+        r = _disp_cache[enc] = (tuple(cells), g, tuple(ctls), mode)
+        if len(_disp_cache) > 300000:
+            _disp_cache.clear()
+    return r
+
+
+def canon_prop(reply):
+    """PROPERTY level: exactly what C13 speaks about.  Per step: the result (a terminal string by what it DISPLAYS, a
+    guard by the fact that it raised) and, for every pool value, its per-character formatting (hence text), length,
+    width or the exception kind, and the display of its terminal string.  NOT compared here (representation level,
+    `canon`): object identity / aliasing, run layout, which memo slots are filled, the exact bytes of str()."""
+    if not reply.startswith("ok "):
+        return reply
+    out = []
+    for step in reply[3:].split(" / "):
+        head, _, ents = step.partition(" # ")
+        res, _, dflag = head.strip().partition(" ")
+        if res.startswith("T"):
+            res = ("T", disp(res[1:]))
+        elif res.startswith("G:raised"):
+            res = "G:raised"
+        elif res in ("b0", "b1"):
+            # `==` is in the programs as an observation that renders both operands; which strings compare equal is
+            # C19's subject (the oracle still checks the answer against the fresh terminal strings of the real code)
+            res = "b"
+        es = []
+        for e in (ents.split(" ") if ents else []):
+            parts = e.split("!")
+            if len(parts) != 5:
+                es.append(e)
+                continue
+            _, enc, rend, ln, w = parts
+            try:
+                cells = tuple(wire.cells_of_chunks(wire.dec_fmt(enc)))
+            except Exception:  # noqa: BLE001 - an unencodable value is compared as it is
+                cells = enc
+            es.append((cells, ln, w, disp(rend)))
+        out.append((res, dflag, tuple(es)))
+    return tuple(out)
+
+
+def inside_quantifier(case):
+    """programs built from the operation set the property names; slice STEPS are not part of it (the library refuses
+    them today, a later version may accept them)"""
+    return not any(isinstance(d, dict) and d.get("step") is not None for d in case["steps"])
 
 
 # ------------------------------------------------------------------------------------------------------------
@@ -917,12 +1013,21 @@ def check(ctx):
 
     def impl(c):
         reply, findings, stats = run_program(c)
-        stash[id(c)] = (findings, stats)
+        stash[id(c)] = (findings, stats, reply)
         return reply
 
-    ctx.tie("C13/programs", cases, lambda c: c["line"], impl, canon, canon)
+    # property level: the observations C13 speaks about, on programs inside its quantifier - this is what transfers
+    # the frame/cache theorems (they are about values and "memo = fresh", not about identity or which memo is filled)
+    ctx.tie("C13/programs", [c for c in cases if inside_quantifier(c)], lambda c: c["line"], impl, canon_prop, canon_prop)
+    # representation level: everything stricter (object identity and aliasing of FmtStr / run list / run / attribute-dict
+    # objects, run layout, memo fill state, exact bytes of str, exception kinds of guards) and programs with slice steps
+    ctx.tie("C13/programs-representation", cases, lambda c: c["line"],
+            lambda c: run_program(c)[0] if id(c) not in stash else stash[id(c)][2], canon, canon, level="representation")
     for c in cases:
-        findings, stats = stash[id(c)]
+        if id(c) not in stash:
+            impl(c)
+    for c in cases:
+        findings, stats, _ = stash[id(c)]
         small = dict(kind=c["kind"], steps=c["steps"])
         ctx.count(small, nontrivial=stats["aliasing_after_memo"], tag=c["kind"])
         for o in stats["ops"]:
@@ -938,6 +1043,9 @@ def check(ctx):
         for what, d in findings[:3]:
             ctx.violation(what, small, footprint(d, what) if d else None)
     ctx.exhaustive.append("oracle-only programs (splice with end < start, lazily consumed width_aware_splitlines): %d" % len(oracle_cases))
+    if MISSING_SLOTS:
+        ctx.note("private attributes the implementation does not have (read only when present; the public accessors judge): %s"
+                 % sorted(MISSING_SLOTS))
     ctx.note("dict mutators found in dir(dict) at run time: %s" % sorted({m[0] for m in muts_all}))
     gcs = guard_cases(muts_all)
     ctx.exhaustive.append("guards: f[0]='x', f[0:1]='x', del f[0], c.atts={}, c.s='x' and %d (method, args) mutators x 3 values x memo "
